@@ -65,6 +65,19 @@ func (self ValueAnyObject) Fields() (map[string]*Value, *Interrupt) {
 			value := self.FieldsInternal[args[0].(ValueString).Inner]
 			return NewValueOption(value), nil
 		}),
+		"get_type": NewValueBuiltinFunction(func(executor Executor, cancelCtx *context.Context, span errors.Span, args ...Value) (*Value, *Interrupt) {
+			value, found := self.FieldsInternal[args[0].(ValueString).Inner]
+			if !found || value == nil {
+				return nil, NewThrowInterrupt(span, fmt.Sprintf("Value of type 'any-object' has no field named '%s'", args[0].(ValueString).Inner))
+			}
+			// same names as `ast.TypeKind.String()`, which the VM reports
+			names := map[ValueKind]string{
+				NullValueKind: "null", IntValueKind: "int", FloatValueKind: "float", BoolValueKind: "bool", StringValueKind: "str",
+				AnyObjectValueKind: "any-object", ObjectValueKind: "object", OptionValueKind: "Option", ListValueKind: "list", RangeValueKind: "range",
+				FunctionValueKind: "function", ClosureValueKind: "function", VmFunctionValueKind: "function", BuiltinFunctionValueKind: "function",
+			}
+			return NewValueString(names[(*value).Kind()]), nil
+		}),
 		"keys": NewValueBuiltinFunction(func(executor Executor, cancelCtx *context.Context, span errors.Span, args ...Value) (*Value, *Interrupt) {
 			rawKeys := make([]string, 0)
 			for key := range self.FieldsInternal {
